@@ -300,6 +300,16 @@ def check_class(prog, rep, modname, cname):
         rep.ok("accessor-same-container", f"{cname}: all {len(containers)} access paths read self.{vals.pop()}", nontrivial=True)
     else:
         rep.fail("accessor-same-container", mod, cname, c.node, f"accessors read different containers: {containers}", construct=f"class {cname} accessor containers")
+    # keys are dispatched by isinstance (a numpy.str_ label, a bool / IntEnum position are a str / an int): an exact-type test
+    # refuses in __getitem__ what __contains__ accepts
+    for n, f in meths.items():
+        for x in walk_no_nested(f.node):
+            if isinstance(x, ast.Compare) and len(x.ops) == 1 and isinstance(x.ops[0], (ast.Eq, ast.Is, ast.NotEq, ast.IsNot)):
+                for side in (x.left, x.comparators[0]):
+                    if isinstance(side, ast.Call) and norm(side.func) == "type" and len(side.args) == 1 and isinstance(side.args[0], ast.Name) and side.args[0].id in f.params:
+                        rep.fail("getitem-contract" if n == "__getitem__" else "contains-contract", mod, f"{cname}.{n}", x,
+                                 f"`{norm(x)}` dispatches on the exact type of the key: instances of subclasses (numpy.str_, bool, an IntEnum) are treated as unsupported keys although "
+                                 "they are labels / positions", construct=f"{cname}.{n} exact type test")
     # purity
     for n, f in meths.items():
         sn = f.self_name or "self"
